@@ -762,8 +762,10 @@ esl_msa_GuessAlphabet(const ESL_MSA *msa, int *ret_type)
    * be classified, but we can determine alphabet from composition
    * of the complete alignment. Of course, degenerate residue codes in
    * a DNA alignment will still screw us.
+   * Only when no sequence was classified: an alignment with sequences
+   * called amino AND sequences called nucleic stays indeterminate.
    */
-  if (*ret_type == eslUNKNOWN)
+  if (*ret_type == eslUNKNOWN && namino + ndna + nrna == 0)
     {
 
       n = 0;
